@@ -141,9 +141,11 @@ Definition is_failb (r : res) : bool := match r with RErr _ => true | _ => false
    end) it moves backwards *)
 Definition commit_must_fail (pre : list pt_row) (wb : wbook) (e : Z) : bool :=
   let S := b_start wb in
-  let eff := match b_preset wb with Some E => Z.min e E | None => e end in
+  (* with a preset end E the committed range is [S,E), or [S,e) on a file switch; a call
+     with e > E is refused for that reason alone (not a validation error) *)
+  let in_bound := match b_preset wb with Some E => e <=? E | None => true end in
   let own p := match b_prev wb with Some _ => pt_s p =? S | None => false end in
-  ((S <? eff) && existsb (fun p => negb (own p) && (pt_s p <? eff) && (S <? pt_e p)) pre) ||
+  (in_bound && (S <? e) && existsb (fun p => negb (own p) && (pt_s p <? e) && (S <? pt_e p)) pre) ||
   match b_preset wb, b_prev wb with
   | None, Some pv => e <? pv
   | _, _ => false
